@@ -14,7 +14,14 @@ import (
 // vRand is a splitmix64 generator; every random choice of the harness derives from it.
 type vRand struct{ s uint64 }
 
-func newVRand(seed uint64) *vRand { return &vRand{s: seed*0x9E3779B97F4A7C15 + 0x1234567} }
+func newVRand(seed uint64) *vRand {
+	// scramble the seed so that neighbouring seeds give unrelated streams
+	z := (seed + 0x1234567) * 0xBF58476D1CE4E5B9
+	z = (z ^ (z >> 29)) * 0x94D049BB133111EB
+	z ^= z >> 32
+
+	return &vRand{s: z}
+}
 
 func (r *vRand) next() uint64 {
 	r.s += 0x9E3779B97F4A7C15
@@ -46,6 +53,17 @@ func vPick[T any](r *vRand, l []T) T { return l[r.intn(len(l))] }
 func coqStr(s string) string {
 	if s == "" {
 		return "[]"
+	}
+	plain := true
+	for i := 0; i < len(s); i++ {
+		if s[i] < 0x20 || s[i] > 0x7e || s[i] == '"' {
+			plain = false
+
+			break
+		}
+	}
+	if plain {
+		return `(s "` + s + `")`
 	}
 	parts := make([]string, 0, len(s))
 	for i := 0; i < len(s); {
